@@ -584,6 +584,43 @@ def parseDU (env : Env) (m : Mods) (disc : Nat) (dmap : List (Nat × Mid)) (opts
         | none => if firstAcc env opts v then .ok else .err [mk .invalidUnion []]
     | _ => .err [mk .invalidType []]
 
+/-! ### the discriminator index (`types/discriminated_union.go:484-512` buildDiscriminatorMap)
+
+  The union is constructed from an option LIST.  `discValues` extracts from each option the discriminator values
+  it DECLARES (the values of a Literal / Enum schema in its discriminator field; an option whose field is any other
+  schema, or that has no such field, declares none and is silently left out of the index).  The options are
+  entered in order; a value declared twice, or no value declared at all, is a construction error: every later
+  `Parse` answers `invalid_schema` before looking at the input (`discriminated_union.go:67-71`). -/
+
+structure DUOpt where
+  m : Mid
+  vals : List Nat          -- interned discriminator values the option declares (`discValues`)
+  deriving Repr, Inhabited
+
+/-- the inner loop `for _, v := range vals { if _, exists := dm[v]; exists { return error }; dm[v] = opt }`. -/
+def discInsert (m : Mid) : List Nat → List (Nat × Mid) → Option (List (Nat × Mid))
+  | [], dm => some dm
+  | v :: vs, dm => if dm.any (fun e => e.1 == v) then none else discInsert m vs (dm ++ [(v, m)])
+
+def discBuildFrom : List DUOpt → List (Nat × Mid) → Option (List (Nat × Mid))
+  | [], dm => some dm
+  | o :: os, dm =>
+    match discInsert o.m o.vals dm with
+    | none => none
+    | some dm' => discBuildFrom os dm'
+
+/-- `buildDiscriminatorMap`: `none` = construction error (duplicate value, or `len(dm) == 0`). -/
+def buildDiscMap (os : List DUOpt) : Option (List (Nat × Mid)) :=
+  match discBuildFrom os [] with
+  | some [] => none
+  | r => r
+
+/-- `ZodDiscriminatedUnion.Parse` of a union constructed from the option list `os`. -/
+def parseDUDecl (env : Env) (m : Mods) (disc : Nat) (os : List DUOpt) (v : V) : Res :=
+  match buildDiscMap os with
+  | none => .err [mk .invalidSchema []]
+  | some dm => parseDU env m disc dm (os.map (·.m)) v
+
 /-! ## lazy  (`types/lazy.go:91-125,407-427`) — own parse path -/
 
 /-- the placeholder `invalid_type(expected lazy)` error (`newLazyTypeError`). -/
